@@ -5,6 +5,22 @@ HERE = os.path.dirname(os.path.dirname(os.path.abspath(__file__)))
 INFO = {
  'C01-A': ('C01', 'check_parser_consistency() returns the set of ALL short names and try_parse_as_toggle() uses it for the bundle-coverage test', 'a bundle mixing a declared toggle letter with the short name of a value-taking option (-vo): accepted, o dropped'),
  'C01-B': ('C01', 'per-letter bundle check with an is_toggle flag that is never reset', 'a bundle in which an undeclared / option letter sorts after a declared toggle letter (-vx): accepted, x dropped'),
+ 'C01-C': ('C01', 'toggle::update_value() handles --no-NAME first, so the "a toggle takes no value" check guards only the plain form', 'a reversible toggle given as --no-NAME=VALUE: accepted, =VALUE dropped'),
+ 'C01-D': ('C01', 'try_parse_as_option advances past the next token whenever a value token follows, also after --opt=value', '--opt=value directly followed by a value token: that token is skipped silently'),
+ 'C04-C': ('C04', 'toggle::matches compares the negated spelling by prefix (compare(5, n, name) == 0)', 'an unknown token --no-<name><extra> for a reversible toggle: accepted and switches the toggle off'),
+ 'C04-D': ('C04', 'toggle::check() guards the environment fallback by !given() instead of !has_non_default()', '--no-<name> on the command line with the bound variable set: spurious error for an unknown word / environment overrides the command line'),
+ 'C06-C': ('C06', 'copy assignment fast path for equal capacities re-uses the range insert, which never lowers size', 'copy-assign a shorter container onto a longer one of the same capacity'),
+ 'C06-D': ('C06', 'move constructor made allocation-free: the moved-from container keeps its capacity but owns no storage', 'append to a moved-from container: write through a null pointer'),
+ 'C07-C': ('C07', 'move assignment swaps size and data by hand but not capacity', 'move assignment between containers of different capacity'),
+ 'C07-D': ('C07', 'erase() closes the gap with memmove for trivially copyable types, with an element count instead of a byte count', 'erase in a fixed_vector of a plain type wider than one byte with two or more elements behind the position (or values that differ above the lowest byte)'),
+ 'C09-C': ('C09', 'the stderr sink creates its mutex lazily through an unsynchronised check-then-create', 'the very first two records arrive from two threads at once: each locks its own mutex'),
+ 'C09-D': ('C09', 'stdout_mt uses a hand-written spin lock whose CAS loop does not reset the expected value', 'a thread asks for the lock while another holds it and retries while it is still held: both are inside'),
+ 'C12-C': ('C12', 'parse(argc, argv) builds user_input with the checking constructor', 'a token after -- (or after the greedy switch) that would be malformed as an option (---x, -=x, a lone -): rejected instead of returned as a positional'),
+ 'C12-D': ('C12', 'user_input::is_value() returns false for an empty name', 'an empty-string argument or a token starting with = ahead of --: rejected instead of taken as a positional'),
+ 'C14-C': ('C14', 'option::prepare() returns early when the option was not given, so a value filled from the default survives', 'an option with a default: a parse without it, then a parse that gives it: already given'),
+ 'C14-D': ('C14', 'toggle remembers "negated form seen" in a new member that prepare() does not reset', 'a reversible toggle: --no-<name> in one parse, the positive form in a later one: rejected'),
+ 'C18-C': ('C18', 'quaint_ptr::reset() runs the deleter while the owner still holds the pointer', 'a pointee whose destructor reaches back to its owner and resets it: destroyed twice'),
+ 'C18-D': ('C18', 'optional shares its payload between copies (shared_ptr) and value assignment writes into the shared payload', 'copy an engaged optional, assign a value to one of the two, read the other'),
  'C02-A': ('C02', 'user_input::value() returns the split-off part whenever the token contains =', 'a value that contains = given as a SEPARATE token (--o k=v, -p =v): everything up to the first = is lost'),
  'C02-B': ('C02', 'typed access extracts with std::setbase(0) ("accept 0x...")', 'zero-padded decimal text (010, 0042, 08): read as octal'),
  'C03-A': ('C03', 'toggle::check() asks "given on the command line?" by count instead of by the dirty flag', 'reversible toggle bound to an env variable, --no-<name> on the command line, variable set: environment overrides the command line'),
